@@ -532,6 +532,14 @@ def check_c04(sim, res):
 # ================================================================================================
 # C06
 # ================================================================================================
+def S_cidx(c_id, spec):
+    """spec index of a component ID."""
+    for i in range(len(spec["comps"])):
+        if S.cid(i) == c_id:
+            return i
+    raise KeyError(c_id)
+
+
 def placeable_workplaces(sim, upd, alloc, ti):
     """Workplaces into which the unplaced single-task component of READY facility task ti certainly fitted during
     the allocation pass of this step (flat product): the task lists the workplace, the workplace has skill for the
@@ -541,12 +549,23 @@ def placeable_workplaces(sim, upd, alloc, ti):
     t = sim.tasks[ti]
     size = spec["comps"][t["comp"]]["space"]
     sizes = {S.cid(i): c["space"] for i, c in enumerate(spec["comps"])}
+    # a (top-level) component all of whose tasks are FINISHED has to leave its workplace in the update of the step
+    # (C13): it does not take room that a waiting component could use
+    by_comp = {}
+    for i, x in enumerate(spec["tasks"]):
+        if x.get("comp") is not None:
+            by_comp.setdefault(S.cid(x["comp"]), []).append(sim.tids[i])
+    done = set(
+        c
+        for c, ts in by_comp.items()
+        if all(upd["tasks"][t_][T_STATE] == S.FINISHED for t_ in ts) and not spec["comps"][int(S_cidx(c, spec))].get("extra_tasks")
+    )
     out = []
     for k, wp in enumerate(spec["wps"]):
         if ti not in wp["targets"] or ti in wp.get("notask", ()):
             continue
         w_id = S.wpid(k)
-        there = set(upd["wps"][w_id]) | set(alloc["wps"][w_id])
+        there = (set(upd["wps"][w_id]) | set(alloc["wps"][w_id])) - done
         room = wp["cap"] - sum(sizes[c] for c in there)
         if not room >= size - 1e-9:
             continue
